@@ -413,6 +413,12 @@ def run(rep, tier):
                  "('timeout' vs 'signaled') read with the lock re-acquired, notify consumes the entry before resuming: a timed acquire that reports a timeout has not swallowed a permit's wake-up")
 
 
+    import_rules(rep, tier, "C07", ("C07.R6",), "C08.R9",
+                 "K2/K8 (shared with C07.R6): acquirers on plain OS threads (sync_wait from outside the runtime, any non-pika thread) park in default_agent: resume()/abort() "
+                 "deliver on every path and only after the target announced that it parked; every member a waiter is parked in announces running_ = false before it blocks - "
+                 "otherwise a release that overlaps the acquirer's way to sleep leaves it blocked with its permit available")
+
+
 def short_(q):
     return q.rsplit("::", 1)[-1]
 
